@@ -909,7 +909,9 @@ class SequentialContext:
                 cpy._clk,
                 cpy._reset,
                 step_cond=cpy._step_cond,
-                on_reset=on_reset,
+                # an on_reset action given to the context itself (std.sequential(clk, reset, on_reset=...))
+                # applies unless this invocation provides its own
+                on_reset=cpy._on_reset if on_reset is None else on_reset,
                 comment=cpy._comment,
                 attributes=attributes,
                 capture_lazy=cpy._capture_lazy,
